@@ -108,7 +108,7 @@ def build(case, rng):
   return case["path"], mjm, ["repo:" + case["path"]]
 
 
-def certificate_i(rec, P, ovf, niter, solver, tag, ctx):
+def certificate_i(rec, P, ovf, niter, solver, tag, ctx, start=None):
   """Self-certificate on MJWarp's own rows. Returns dict(a_opt, cost_opt, gap ratio) or None when not judged."""
   n, nv = P["n"], P["nv"]
   a32 = P["qacc"]
@@ -120,7 +120,8 @@ def certificate_i(rec, P, ovf, niter, solver, tag, ctx):
     rec.viol("elliptic_rows:not_one_block_per_contact", f"elliptic rows of contacts {P['cone_bad']} are not one consecutive block of condim rows {ctx}")
     return None
   g, cost, force, state, jar = E.grad_cost(P, a32)
-  jar_mag, grad_mag = E.noise_terms(P, a32, force)
+  start = np.abs(P["qacc_smooth"]) if start is None else np.maximum(np.abs(start), np.abs(P["qacc_smooth"]))
+  jar_mag, grad_mag = E.noise_terms(P, a32, force, start=start)
   # ---- (c) reported force / state are the ones implied by qacc
   if n:
     fb = C_FORCE * E.EPS32 * (P["D"] * jar_mag + np.abs(force)) + 1e-12
@@ -176,17 +177,22 @@ def certificate_i(rec, P, ovf, niter, solver, tag, ctx):
         rec.count("state_ties_at_zone_boundary")
   # ---- (a)/(b) optimality
   a_opt, info = E.solve64(P, a32)
-  gopt = info["gradnorm"] / P["scale"]
-  if not np.isfinite(info["cost"]) or gopt > 1e-7:
+  gmax = max(1e-300, float(grad_mag.max()))
+
+  def unconverged(inf):
+    # float64 gradient at the reference optimum relative to the magnitude of the terms it sums (absolute fallback)
+    return (not np.isfinite(inf["cost"])) or (float(np.abs(inf["grad"]).max()) > 1e-9 * gmax and inf["gradnorm"] / P["scale"] > 1e-9)
+
+  if unconverged(info):
     # retry from the unconstrained acceleration
-    a_opt2, info2 = E.solve64(P, P["qacc_smooth"], iters=120)
-    if info2["cost"] < info["cost"] or not np.isfinite(info["cost"]):
+    a_opt2, info2 = E.solve64(P, P["qacc_smooth"], iters=150)
+    if np.isfinite(info2["cost"]) and (not np.isfinite(info["cost"]) or info2["cost"] < info["cost"]):
       a_opt, info = a_opt2, info2
-      gopt = info["gradnorm"] / P["scale"]
-  if not np.isfinite(info["cost"]) or gopt > 1e-6:
+  if unconverged(info):
     rec.inconcl("float64 reference optimum did not converge")
     rec.count("ref_optimum_not_converged")
     return None
+  gopt = info["gradnorm"] / P["scale"]
   gap = (cost - info["cost"]) / P["scale"]
   eg = C_GRADNOISE * E.EPS32 * grad_mag
   try:
@@ -195,6 +201,9 @@ def certificate_i(rec, P, ovf, niter, solver, tag, ctx):
     floor = np.inf
   # the float64 optimum itself is only known to |grad| precision
   floor += 10 * gopt * float(np.abs(a32 - a_opt).max()) + 1e-15
+  # float64 cancellation when the two costs are differenced
+  cost_mag = 0.5 * float(np.abs(a32) @ (np.abs(P["M"]) @ np.abs(a32))) + float(np.abs(P["qfrc_smooth"]) @ np.abs(a32)) + abs(cost) + abs(info["cost"])
+  floor += 1e-13 * cost_mag / P["scale"]
   tol = P["tolerance"]
   bound = K_TOL[solver] * tol + floor
   ratio = gap / bound
@@ -293,7 +302,16 @@ def run_case(case):
     st = S.settle(mjm, st, case["settle"])
     states.append(st)
   # warmstarts: world 0 cold (zeros), world 1 hostile, world 2 near-optimal (MuJoCo's solution)
-  ref_d = [E.mj_optimum(mjm, st, tol=1e-10, iters=200) for st in states]
+  try:
+    ref_d = [E.mj_optimum(mjm, st, tol=1e-10, iters=200) for st in states]
+  except mujoco.FatalError as e:
+    rec.rejected = f"mujoco fatal error on this state: {e}"[:120]
+    return rec.result()
+  if any((not np.all(np.isfinite(r.qacc))) or np.abs(r.qacc).max() > 1e7 or np.any(np.array(r.warning.number) > 0) for r in ref_d):
+    # the generated state is numerically degenerate for MuJoCo itself (diverged settling, singular loop): not a test
+    rec.rejected = "degenerate state (MuJoCo reports a warning or |qacc|>1e7)"
+    rec.count("rejected_degenerate_state")
+    return rec.result()
   need = max(int(r.nefc) for r in ref_d)
   njmax = next((c for c in NJMAX if c >= need + need // 4 + 8), None)
   if njmax is None:
@@ -308,6 +326,8 @@ def run_case(case):
   nontriv = False
   kernels = set()
   refs, first_ii = {}, {}
+  prev_qacc = None
+  warm_disabled = bool(mjm.opt.disableflags & mujoco.mjtDisableBit.mjDSBL_WARMSTART)
   gateable = bool(case.get("exact_geoms"))
   cw = [e for e in range(mjm.neq) if int(mjm.eq_type[e]) in (int(mujoco.mjtEq.mjEQ_CONNECT), int(mujoco.mjtEq.mjEQ_WELD))]
   # finding C05/A: connect/weld aref uses velocity-stage fields of the previous call; only relevant with motion
@@ -336,8 +356,14 @@ def run_case(case):
         rec.viol("efc.J:sparse_structure", f"CSR structure out of range {ctx}")
         continue
       P = E.problem(mjm, m, d, w, rows)
-      res = certificate_i(rec, P, int(ovf[w]), int(niter[w]), solver, tag, ctx)
-      E.admissibility(rec, mjm, m, d, w, rows=rows, contact_force=False, sig_prefix="C24:")
+      if P["n"] and np.any((P["D"] >= 1e12) & ~P["inert"]):
+        # R clamped at mjMINVAL (invweight0 == 0) on a row that does act on the dofs: H has condition >= 1e15, which
+        # float32 cannot represent -- a degenerate model, not a solver observation
+        rec.count("worlds_not_judged:D=1/mjMINVAL_on_live_row")
+        continue
+      start = prev_qacc[w] if p else (None if warm_disabled else states[w]["qacc_warmstart"])
+      res = certificate_i(rec, P, int(ovf[w]), int(niter[w]), solver, tag, ctx, start=start)
+      E.admissibility(rec, mjm, m, d, w, rows=rows, contact_force=False, sig_prefix="C24:", start=start)
       rec.cover(f"judged:{solver}:{cone}:{'sparse' if m.is_sparse else 'dense'}", 1)
       rec.cover(f"judged_pass:{tag}", 1)
       rec.cover("warmstart:" + ("cold", "hostile", "near_optimal")[w] + ":" + tag, 1)
@@ -393,6 +419,7 @@ def run_case(case):
           elif p == 1 and w in first_ii and first_ii[w][0] > cmp.VIOL_FACTOR and stale_candidate:
             rec.viol(f"mujoco_cost_gap:{solver}", first_ii[w][1])
     # second pass: warm start from the solution just found
+    prev_qacc = np.array(mw.npy(d.qacc), dtype=np.float64)[:, : mjm.nv]
     wp.copy(d.qacc_warmstart, d.qacc)
   for f in feat:
     rec.cover("features", f)
